@@ -57,7 +57,7 @@ package gen
 //@ func (*Number).AsNum
 //@   exact
 //@   opt exactprops = C02
-//@   requires n.Div <= 10000000000000000000
+//@   requires NumInv(n)
 //@   modifies n.BigBuf, heap(n.BigBuf)
 //@   ensures [C02 int] old(len(n.BigBuf)) == 0 && old(n.Div) == 1 && old(n.Exp) == 0 && !n.ForceFloat
 //@        ==> isint64(num) && anyint(num) == (if old(n.Neg) then 0 - old(n.I) else old(n.I))
